@@ -225,6 +225,27 @@ fn check_faults(t: &mut Tape, ctx: &Ctx) -> Outcome {
     let mut op = Opts::default();
     op.replies = g.replies.iter().cloned().collect();
     op.max_calls = 300;
+    // half of the cases reach the faulty program by editing: the well-formed original is typed
+    // and run under TRON first (every run-time line lookup has happened), then the damaged lines
+    // are typed over it and the lines that went are deleted
+    let mut case = case;
+    if t.chance(1, 2) {
+        for l in g.prog.texts() {
+            term.enter_raw(&l);
+            term.run(&mut op);
+        }
+        term.line("TRON", &mut op);
+        term.line("RUN", &mut op);
+        term.line("TROFF", &mut op);
+        for n in g.prog.line_numbers() {
+            if !prog.lines.iter().any(|l| l.num == n) {
+                term.line(&format!("{}", n), &mut op);
+            }
+        }
+        op.replies = g.replies.iter().cloned().collect();
+        case = format!("(the well-formed original was typed and run under TRON first, then edited into:)\n{}", case);
+        crate::runner::note_case(&case);
+    }
     for l in &texts {
         term.enter_raw(l);
         term.run(&mut op);
